@@ -23,16 +23,26 @@ pub fn payload(tid: u32, seq: u32, len: usize) -> Vec<u8> {
     out
 }
 
-/// The complete encoded record, newline included.
+/// How a record ends, chosen by the writer id: most encoders end a record with a newline, but
+/// nothing obliges them to ("|{l}:{m}", "{m}{n}    at {t}").
+pub fn terminator(tid: u32) -> &'static [u8] {
+    match tid % 900 {
+        0..=299 => b">\n",
+        300..=599 => b">;",   // no newline at all
+        _ => b">\n@",        // a newline followed by more text of the same record
+    }
+}
+
+/// The complete encoded record, terminator included.
 pub fn frame(tid: u32, seq: u32, len: usize) -> Vec<u8> {
     let mut v = format!("<t{}:s{}:l{}:", tid, seq, len).into_bytes();
     v.extend(payload(tid, seq, len));
-    v.extend_from_slice(b">\n");
+    v.extend_from_slice(terminator(tid));
     v
 }
 
 pub fn frame_len(tid: u32, seq: u32, len: usize) -> usize {
-    format!("<t{}:s{}:l{}:", tid, seq, len).len() + len + 2
+    format!("<t{}:s{}:l{}:", tid, seq, len).len() + len + terminator(tid).len()
 }
 
 #[derive(Clone, Copy, Debug, PartialEq, Eq, Hash, PartialOrd, Ord)]
@@ -103,7 +113,8 @@ pub fn parse_stream(b: &[u8]) -> Result<Vec<Parsed>, String> {
         if !expect(b, &mut i, b":") {
             return Err(bad("bad frame header", i));
         }
-        if i + len + 2 > b.len() {
+        let term = terminator(tid as u32);
+        if i + len + term.len() > b.len() {
             return Err(bad("frame is truncated (stream ends inside it)", b.len()));
         }
         let want = payload(tid as u32, seq as u32, len);
@@ -112,7 +123,7 @@ pub fn parse_stream(b: &[u8]) -> Result<Vec<Parsed>, String> {
             return Err(bad("payload differs from what was written (split / interleaved / corrupted record)", i + k));
         }
         i += len;
-        if !expect(b, &mut i, b">\n") {
+        if !expect(b, &mut i, term) {
             return Err(bad("frame terminator missing", i));
         }
         out.push(Parsed {
@@ -247,6 +258,15 @@ impl Encode for ChunkEnc {
         if b.is_empty() {
             return Ok(());
         }
+        if self.pieces == 0 {
+            // uneven: a short prefix, then everything else in one chunk (like "{l} {m}{n}" with a long message)
+            let cut = b.len().min(5);
+            w.write_all(&b[..cut])?;
+            if cut < b.len() {
+                w.write_all(&b[cut..])?;
+            }
+            return Ok(());
+        }
         let k = self.pieces.max(1).min(b.len());
         let step = (b.len() + k - 1) / k;
         for c in b.chunks(step) {
@@ -260,6 +280,8 @@ impl Encode for ChunkEnc {
 pub fn message_for(tid: u32, seq: u32, len: usize, with_newline: bool) -> String {
     let mut f = frame(tid, seq, len);
     if !with_newline {
+        // only the newline-terminated style can leave its newline to the encoder ("{m}{n}")
+        assert!(terminator(tid) == b">\n", "style of writer {} needs an encoder that writes the message verbatim", tid);
         f.pop();
     }
     String::from_utf8(f).expect("frames are UTF-8")
